@@ -28,6 +28,9 @@ for mp in sorted(glob.glob("/verif/seeded/*/meta.json")):
             detected_quick.add(k.split("/")[0])
     for k, v in sorted(res.items()):
         st = v.split()[0] if v.split() else "?"
+        if st == "OBSOLETE":
+            best.append(v[len("OBSOLETE "):])
+            continue
         if st != "DETECTED" and k.split("/")[0] in detected_quick:
             continue  # a stale first-pass record of a tier that was not run again once quick detected the change
         test = re.search(r"Test\w+|Fuzz\w+", v)
